@@ -1503,3 +1503,62 @@ def c11(ctx, res):
         why.append("%d closure call sites, %d lookups" % (len(closure_calls), len(lookups)))
     res.oblige("C11.1/2 mutate calls the closure once, only on the hit edge of the lookup and before any effect, and forwards its result in Ok(Some(_))",
                ok, detail=why, key="C11.1:closure-site", loc=span_str(b.span), rule="C11.1 closure site", msg="mutate: %s" % "; ".join(why))
+
+
+# =====================================================================================================================
+#  C07: structural clauses (seal lifecycle, cursor dereference guards, constructor detaches)
+# =====================================================================================================================
+def c07(ctx, res):
+    r, cg, eff = ctx.roles, ctx.cg, ctx.eff
+    te = _te(ctx, True)
+    # 4. seal lifecycle: allocated by exactly one primitive whose result has both links = itself; that primitive is reached
+    #    only from constructors; freed only from the cache's Drop (C06.4 checks the ordering)
+    allocs = [b for b in ctx.facts.bodies if any(norm(c.resolved or c.nominal) == "std::boxed::Box::into_raw" for c in cg.calls.get(b.path, []))
+              and b.j.get("output", {}).get("name") == r.eptr]
+    res.floor("C07.4 seal allocators", len(allocs), 1)
+    for b in allocs:
+        res.count("C07.4 seal lifecycle")
+        rs = te.all_results(b, max_paths=3)
+        good = len(rs) == 1
+        why = []
+        if good:
+            ret = show(rs[0].ret)
+            st = [(show(p), show(v)) for (p, v, _bb) in rs[0].stores]
+            for l in r.links:
+                hit = [1 for (p, v) in st if p.endswith(".%s" % l) and v == ret]
+                if not hit:
+                    good = False
+                    why.append("link `%s` of the fresh seal is not initialised to the seal itself" % l)
+        else:
+            why.append("%d paths" % len(rs))
+        res.oblige("C07.4 `%s` returns a seal whose two links point to itself" % b.path, good, detail=why, key="C07.4:%s:self-linked" % b.path,
+                   loc=span_str(b.span), rule="C07.4 seal lifecycle", msg="`%s`: %s" % (b.path, "; ".join(why)))
+        callers = sorted(set(c.body.path for c in cg.callers_of(b.path)))
+        okc = all(ctx.facts.body(p) is not None and (r.is_cache_ty(ctx.facts.body(p).j.get("output", {})) or p == b.path) for p in callers)
+        res.oblige("C07.4 the seal allocator is called only by functions that build a cache", okc, detail=callers, key="C07.4:%s:callers" % b.path,
+                   rule="C07.4 seal lifecycle", msg="seal allocator `%s` is called from %s" % (b.path, callers))
+    # 5. cursor dereferences in the iterators are guarded by the null test of the exhaustion cursor: part of the cursor machine (C12.1):
+    for (adt, eps) in cursor_adts(ctx):
+        for (trait, m) in (("std::iter::Iterator", "next"), ("std::iter::DoubleEndedIterator", "next_back")):
+            b = r.trait_method(trait, m, adt)
+            if b is None:
+                continue
+            mc, why = cursor_machine(ctx, b, eps)
+            res.count("C07.5 cursor dereference guards")
+            ok = mc is not None and mc["E"] is not None and all(
+                (ret == "None") or any(c_[0] == "isnull" and c_[2] is False for c_ in conds) for (conds, ret, stores) in mc["paths"])
+            res.oblige("C07.5 `%s::%s` dereferences a cursor only after the exhaustion cursor tested non-null" % (adt, m), ok,
+                       key="C07.5:%s:%s:unguarded-deref" % (adt, m), loc=span_str(b.span), rule="C07.5 guarded cursor dereference",
+                       msg="`%s::%s` can dereference a null/seal cursor (%s)" % (adt, m, why or "a yielding path lacks the null test"))
+    # constructors of &mut-holding copy-out iterators leave the list reset (shared with C17)
+    c17(ctx, res)
+    # 1. stale handles: a handle obtained from the cache's table before a call that may reallocate or empty that table must not be
+    #    dereferenced afterwards
+    check_stale_handles(ctx, res)
+
+
+def check_stale_handles(ctx, res):
+    """C07.1 is decided by E3: entries materialised from a table become 'stale' when an element is removed from / the table is drained,
+    cleared or relocated, and a store through a handle to a stale entry is recorded (obligation `no-write-through-stale-handle` at every
+    exit).  Reads of the link fields of a just-removed bucket (retain) are tolerated: removal leaves the bucket bytes in place."""
+    res.note("C07.1 (stale handles) is decided by the E3 obligations `no-write-through-stale-handle`")
